@@ -237,7 +237,17 @@ def inject(doc, defect, pick):
         doc[choose(["Modules_", "nets", "Die", "modules"])] = choose([[], {}, 3])
     elif defect == "invalid-name":
         nm = choose(names)
-        bad = choose(["1a", "a-b", "a b", "", "a.b", 5, "é", "a+"])
+        # fixed ill-formed names, and ill-formed names derived from the valid one (one character too many at either end)
+        bad = choose(["1a", "a-b", "a b", "", "a.b", 5, "é", "a+", nm + "\n", "\n" + nm, nm + " ", " " + nm, nm + "\t", nm + "\r",
+                      nm + "-", "9" + nm, nm + "\u00e9", nm + "\n\n", nm + "."])
+        soft = [k for k, v in mods.items() if isinstance(v, dict) and "area" in v]
+        if soft and next(p) % 3 == 0 and isinstance(bad, str):
+            # ... or the name of a region (key of a per-region area)
+            k = choose(soft)
+            a = mods[k]["area"]
+            region = bad if bad not in ("", "\n" + nm) else "dsp\n"
+            mods[k]["area"] = {region: a} if not isinstance(a, dict) else dict(list(a.items()) + [(region, 1)])
+            return
         new = {}
         for k, v in mods.items():
             new[bad if k == nm else k] = v
@@ -285,7 +295,7 @@ def ill_s(draw):
 
 def subchecks():
     return [
-        Sub("wellformed", run_wellformed, strategy=well_s(), n_quick=5000, n_thorough=120000,
+        Sub("wellformed", run_wellformed, strategy=well_s(), n_quick=5000, n_thorough=120000, fuzz_thorough=2500,
             required=("wire-length", "region-areas", "flat-rectangle", "centre-overridden-by-rectangles", "text", "tree", "tree-loaded-twice")),
-        Sub("illformed", run_illformed, strategy=ill_s(), n_quick=5000, n_thorough=120000, required=tuple(DEFECTS)),
+        Sub("illformed", run_illformed, strategy=ill_s(), n_quick=5000, n_thorough=120000, fuzz_thorough=2500, required=tuple(DEFECTS)),
     ]
